@@ -315,10 +315,15 @@ def check(case):
     from flamapy.metamodels.fm_metamodel.operations import FMMetrics
     out = []
     fms = [build.build(m) for m in case["models"]]
+    current = list(case["models"])
     shared = FMMetrics()
     for k, step in enumerate(case["steps"]):
         i = step["model"] % len(fms)
-        fm, model, flt = fms[i], case["models"][i], step.get("filter")
+        if step.get("edit") is not None:
+            # the model object is edited in place between two analyses; the report describes the model as it is now
+            _bool.morph_checked(fms[i], step["edit"])
+            current[i] = step["edit"]
+        fm, model, flt = fms[i], current[i], step.get("filter")
 
         def run(obj, fm=fm, flt=flt):
             if flt is not None:
@@ -332,6 +337,10 @@ def check(case):
             out.append((f"C17.raised:{fresh.label}", f"step {k}: {fresh.text}"))
             continue
         fresh = list(fresh)
+        if step.get("edit") is not None:
+            rebuilt = lib(run, FMMetrics(), build.build(model))
+            if not isinstance(rebuilt, Raised) and _norm(list(rebuilt)) != _norm(fresh):
+                out.append(("C17.after-in-place-edit.differs-from-fresh-build", f"step {k} ({step.get('edit_label')})"))
         if step["shared"]:
             got = lib(run, shared)
             if isinstance(got, Raised):
@@ -371,11 +380,21 @@ def histories(draw):
     if nm >= 2 and draw(st.integers(0, 2)) == 0:
         models[-1] = S.eq_twin(draw, models[0])       # == to models[0] for the library, yet a different model
     steps = []
+    current = list(models)
     for _ in range(draw(st.integers(1, 5))):
         flt = None
         if draw(st.integers(0, 2)) == 0:
             flt = draw(st.lists(st.sampled_from(sorted(METRICS)), max_size=8, unique=True))
-        steps.append({"model": draw(st.integers(0, nm - 1)), "filter": flt, "shared": draw(st.booleans())})
+        step = {"model": draw(st.integers(0, nm - 1)), "filter": flt, "shared": draw(st.booleans())}
+        if steps and draw(st.integers(0, 3)) == 0:
+            from vf.props import c20
+            label, edited = c20.apply_edit(draw, current[step["model"]],
+                                           only=c20.STRUCTURAL + ("operator-same-kind", "operand-existing", "ctc-copy"))
+            present = set(build.names(edited))
+            edited["ctcs"] = [c for c in edited["ctcs"] if build.expr_refs(c["ast"]) <= present]
+            current[step["model"]] = edited
+            step["edit"], step["edit_label"] = edited, label
+        steps.append(step)
     return {"models": models, "steps": steps}
 
 
@@ -432,6 +451,8 @@ def classes(case):
         out.add("filtered")
     if any(s["filter"] == [] for s in case["steps"]):
         out.add("empty-filter")
+    if any(s.get("edit") is not None for s in case["steps"]):
+        out.add("in-place-edit")
     return out
 
 
@@ -440,7 +461,7 @@ SUBS = [
         classes=lambda case: {"ratio-boundary"}),
     Sub("histories", check, gen=lambda tier: histories(), nontrivial=nontrivial, classes=classes,
         n={"quick": 800, "thorough": 6000},
-        essential=["mixed-decomposition", "no-ctcs", "root-only", "shared-object-reused", "filtered"]),
+        essential=["mixed-decomposition", "no-ctcs", "root-only", "shared-object-reused", "filtered", "in-place-edit"]),
 ]
 
 MANIFEST = {
